@@ -9,11 +9,21 @@ from symx.core import sym_and, sym_or, sym_not
 from ref import relocspec as RS
 from symx.seq import SymByteArray
 
-ARCHS = ["riscv", "riscv:rvc", "arm", "arm:thumb", "x86_64"]
-ADDR_BITS = {"riscv": 32, "riscv:rvc": 32, "arm": 32, "arm:thumb": 32, "x86_64": 48}
+LEGACY_ARCHS = ["riscv", "riscv:rvc", "arm", "arm:thumb", "x86_64"]
+# ISAs added later: discovered with the constructor-aware walk below (labels inside addressing-mode
+# constructors, artificial two-instruction sequences); the legacy five keep their original site list
+NEW_ARCHS = ["avr", "msp430", "mcs6500", "or1k", "mips", "microblaze", "xtensa", "m68k"]
+ARCHS = LEGACY_ARCHS + NEW_ARCHS
+# address width of the ISA (S and P range over every address of that width)
+ADDR_BITS = {"riscv": 32, "riscv:rvc": 32, "arm": 32, "arm:thumb": 32, "x86_64": 48,
+             "avr": 16, "msp430": 16, "mcs6500": 16, "or1k": 32, "mips": 32, "microblaze": 32,
+             "xtensa": 32, "m68k": 32}
 
-# generic data relocations (ppci/arch/data_instructions.py) exist for every arch
+# generic data relocations (ppci/arch/data_instructions.py) exist for every arch; they store
+# little-endian words, so they are claimed for the little-endian ISAs only
 for _a in ARCHS:
+    if _a in RS.BIG_ENDIAN:
+        continue
     RS.SPEC.setdefault((_a, "absaddr16"), dict(name="absaddr16", size=2, kind="abs", decode=lambda w, P: w,
                                                mask=0xFFFF, pre=lambda S, P: P % 2 == 0))
     RS.SPEC.setdefault((_a, "absaddr32"), dict(name="absaddr32", size=4, kind="abs", decode=lambda w, P: w,
@@ -22,7 +32,7 @@ for _a in ARCHS:
                                                mask=(1 << 64) - 1, pre=lambda S, P: P % 4 == 0))
 
 
-def discover(archname):
+def _discover_legacy(archname):
     """[(instruction class name, base bytes, reloc name, reloc offset, addend)] from the real ISA"""
     from ppci.api import get_arch
     from ppci.arch.registers import Register
@@ -65,13 +75,139 @@ def discover(archname):
     return out
 
 
-def sites(archname, claimed_only=True):
+def _has_label(cls, depth=0):
+    """does the syntax of constructor class cls (recursively) take a label operand?"""
+    from ppci.arch.encoding import Constructor
+    syn = getattr(cls, "syntax", None)
+    if not syn or depth > 3:
+        return False
+    for a in syn.formal_arguments:
+        c = a._cls
+        if c is str:
+            return True
+        for alt in (c if isinstance(c, tuple) else (c,)):
+            if isinstance(alt, type) and issubclass(alt, Constructor) and _has_label(alt, depth + 1):
+                return True
+    return False
+
+
+def _build(cls, want_label, depth=0):
+    """instances of the real constructor / instruction class cls: registers = last register of the
+    class, ints = 0; want_label: exactly one operand (possibly nested in an addressing-mode
+    constructor) is the label 'lbl', every alternative that can carry it is produced once"""
+    from ppci.arch.registers import Register
+    from ppci.arch.encoding import Constructor
+    syn = getattr(cls, "syntax", None)
+    if syn is None or depth > 3:
+        return
+    choices = []    # per formal argument: [(value, carries label)]
+    for a in syn.formal_arguments:
+        c = a._cls
+        if c is str:
+            choices.append([("lbl", True)])
+        elif c is int:
+            choices.append([(0, False)])
+        elif isinstance(c, type) and issubclass(c, Register):
+            if not c.all_registers():
+                return
+            choices.append([(c.all_registers()[-1], False)])
+        else:
+            ch = []
+            for alt in (c if isinstance(c, tuple) else (c,)):
+                if not (isinstance(alt, type) and issubclass(alt, Constructor)):
+                    continue
+                if _has_label(alt, depth + 1):
+                    ch += [(v, True) for v in _build(alt, True, depth + 1)]
+                plain = next(iter(_build(alt, False, depth + 1)), None)
+                if plain is not None:
+                    ch.append((plain, False))
+            if not ch:
+                return
+            choices.append(ch)
+
+    def plain_of(ch):
+        for v, lab in ch:
+            if not lab:
+                return v
+        return None
+
+    if not want_label:
+        vals = [plain_of(ch) for ch in choices]
+        if any(v is None for v in vals):
+            return
+        try:
+            yield cls(*vals)
+        except Exception:
+            return
+        return
+    for k, ch in enumerate(choices):
+        for v, lab in ch:
+            if not lab:
+                continue
+            vals = [v if j == k else plain_of(c2) for j, c2 in enumerate(choices)]
+            if any(x is None for x in vals):
+                continue
+            try:
+                yield cls(*vals)
+            except Exception:
+                continue
+
+
+def _discover_ctor(archname):
+    """like _discover_legacy, but walks addressing-mode constructors (msp430 &lbl / #lbl, 6502 lbl,x,
+    m68k (d16,PC), or1k hi()/lo()) and renders artificial instructions (microblaze imm + branch)"""
+    from ppci.api import get_arch
+    from ppci.arch.generic_instructions import ArtificialInstruction
+    arch = get_arch(archname)
+    out = []
+    seen = set()
+    for cls in arch.isa.instructions:
+        if not _has_label(cls):
+            continue
+        for ins in _build(cls, True):
+            try:
+                if isinstance(ins, ArtificialInstruction):
+                    data = b"".join(i.encode() for i in ins.render())
+                else:
+                    data = ins.encode()
+                rels = list(ins.relocations())
+            except Exception:
+                continue
+            for r in rels:
+                key = (cls.__name__, bytes(data), type(r).name, r.offset, r.addend)
+                if key in seen:
+                    continue
+                seen.add(key)
+                out.append(key)
+    return out
+
+
+def discover(archname):
+    if archname in LEGACY_ARCHS:
+        return _discover_legacy(archname)
+    return _discover_ctor(archname)
+
+
+def sites(archname, claimed_only=True, one_per_type=False):
+    """one_per_type: only the first instruction class per (relocation type, offset) — used by the quick
+    tiers for the ISAs in NEW_ARCHS (the other classes differ only in the opcode bits around the field)"""
     res = []
+    seen = set()
     for cname, data, rname, off, addend in discover(archname):
         if claimed_only and (archname, rname) not in RS.SPEC:
             continue
+        if one_per_type:
+            if (rname, off) in seen:
+                continue
+            seen.add((rname, off))
         res.append(dict(arch=archname, ins=cname, base=data.hex(), reloc=rname, off=off, addend=addend))
     return res
+
+
+def tier_sites(archname, tier):
+    """site list of one arch for a tier: legacy ISAs always every class, new ISAs one class per
+    relocation type in quick and every class in thorough"""
+    return sites(archname, one_per_type=(tier == "quick" and archname in NEW_ARCHS))
 
 
 def unclaimed(archname):
@@ -128,8 +264,9 @@ class RelocApplyHarness(Harness):
         bs = out.value
         if len(bs) != sp["size"]:
             return {"size": False}
-        w = RS.le(bs)
-        w0 = RS.le(list(self.base[self.off:self.off + sp["size"]]))
+        en = sp.get("endian", "little")
+        w = RS.word(bs, en)
+        w0 = RS.word(list(self.base[self.off:self.off + sp["size"]]), en)
         want = RS.expected(sp, i["S"], i["A"], i["P"])
         got = sp["decode"](w, i["P"])
         keep = ((1 << (8 * sp["size"])) - 1) ^ sp["mask"]
@@ -145,4 +282,8 @@ def _arch_modules(arch):
         base += ["ppci.arch.arm.arm_relocations", "ppci.arch.arm.thumb_relocations", "ppci.arch.arm.isa"]
     elif arch == "x86_64":
         base += ["ppci.arch.x86_64.instructions"]
+    elif arch == "or1k":
+        base += ["ppci.arch.or1k.instructions", "ppci.arch.or1k.isa"]
+    elif arch in ("avr", "msp430", "mcs6500", "mips", "microblaze", "xtensa", "m68k"):
+        base += [f"ppci.arch.{arch}.instructions"]
     return base
